@@ -5,8 +5,10 @@ package v
 import (
 	"encoding/json"
 	"fmt"
+	"math/rand"
 	"os"
 	"runtime"
+	"strconv"
 	"strings"
 	"sync"
 	"time"
@@ -175,6 +177,30 @@ var baseGoroutines int
 // this exactly; natively a generous pause stands in for it).
 func Yield()           { runtime.Gosched(); time.Sleep(150 * time.Millisecond) }
 func AllocLimit(n int) {}
+
+var jitterRand *rand.Rand
+var jitterMu sync.Mutex
+
+// Jitter: with VERIF_JITTER=<seed> in the environment, pause for a pseudo-random 0..300 microseconds
+// (occasionally a few milliseconds); otherwise nothing.
+func Jitter() {
+	seed := os.Getenv("VERIF_JITTER")
+	if seed == "" {
+		return
+	}
+	jitterMu.Lock()
+	if jitterRand == nil {
+		n, _ := strconv.ParseInt(seed, 10, 64)
+		jitterRand = rand.New(rand.NewSource(n))
+	}
+	d := time.Duration(jitterRand.Intn(300)) * time.Microsecond
+	if jitterRand.Intn(8) == 0 {
+		d = time.Duration(1+jitterRand.Intn(4)) * time.Millisecond
+	}
+	jitterMu.Unlock()
+	runtime.Gosched()
+	time.Sleep(d)
+}
 func SameBacking(a, b []byte) bool {
 	if cap(a) == 0 || cap(b) == 0 {
 		return false
